@@ -8,7 +8,19 @@ Implementation-level oracles (model-free): every respelling of a target (redirec
 argument (command rule) gets the same Match decision and the same analyze() verdict; an
 `allow-redirect D/**` never allows a target whose os.path.realpath lies outside realpath(D)
 (tree with symlinks); relative rules behave the same in directories that differ only by name
-(proj1 / proj[1]); in `**/L/*` and `**/L/?` the final wildcard matches no '/'."""
+(proj1 / proj[1]); in `**/L/*` and `**/L/?` the final wildcard matches no '/'.
+Second round (harness/spell.py): spelling families built by construction for 15 files (anchor: absolute, cwd-relative incl. the lone
+'.', '..', '~', './', through CWD/.., through ../base, ~/, ~/../h, through a symbolic link; decoration at every '/': '//', '/./',
+'zz/..' and 'dir/..' detours; trailing '/', '//', '/.', '/d/..'), each validated with os.path.realpath.  E: the rule (command rule
+at 8 positions, redirect rule, alias, after rule; plain / anchored / trailing ' *' / extra word; any blanks between the words)
+written with spelling p fires on the command / target written with spelling q iff they are the same file - all pairs of a
+capped family, every member of the full family with rotated partners, the undecorated forms fully crossed, other files as
+controls, glob tails ('*', '*.py', '?', classes, '**', '**/name') with ground truth from fnmatch / the directory tree on the real
+paths, five working directories (/, home, parent, through a symlink, a sub-directory).  B2: every helper of the normalisation chain
+against its model on small alphabets exhaustively (_expand_token on all strings of <= 4 characters over . / ~ a * :, both modes;
+_normalize_words / _normalize_pattern on all sequences of <= 2 (thorough: 3) of 28 tokens + every token at every position 0..8;
+str.split(); _resolve_alias on 14^3 (source, source, word) triples); Paths.nf against realpath on every generated spelling;
+model-free: _normalize_pattern(' '.join(ws)) == _normalize_words(ws)."""
 from __future__ import annotations
 
 import logging
@@ -630,7 +642,9 @@ def run(tier, seed, replay=None):
             "relative, ~, **, bracket patterns, messages) x spelled targets incl. symlinks; D: every canonical target (9 relative, "
             f"3 under HOME, 4 absolute incl. '/') x {out.extra['respellings_per_target']['min']}-{out.extra['respellings_per_target']['max']} "
             "respellings x (each single pattern + random rule lists) for redirect and command rules; confinement: 13 directory spellings "
-            "x 29 targets incl. symlink, '..' and '://' escapes; cwd renaming proj1/proj[1]; one-level ground truth. distinct = distinct "
+            "x 29 targets incl. symlink, '..' and '://' escapes; cwd renaming proj1/proj[1]; one-level ground truth; B2: normalisation helpers on "
+            f"small alphabets exhaustively; E: {out.extra.get('spelling_cases')} spelling cases (families of {min(out.extra['spelling_family_sizes'].values())}-"
+            f"{max(out.extra['spelling_family_sizes'].values())} spellings per file, see the module docstring). distinct = distinct "
             "canonical inputs; non-trivial = pattern with '**' (A), >= 2 rules (C), all of D")
         return out
     finally:
